@@ -109,6 +109,12 @@ def run(ctx):
     import c19 as _c19
     r3 = _c19.rule_R19_2(ctx)
     r3.rule = "R12.3"
+    # iteration over the scope table is about variables, not object
+    # properties: C19 judges it, C12 does not
+    sm = __import__("anchors").scope_module(ctx.prog)
+    keep = [v for v in r3.violations if ("| %s::" % sm) not in v.key and not v.key.split("| ")[1].startswith(sm + "::")]
+    r3.obligations -= len(r3.violations) - len(keep)
+    r3.violations = keep
     for v in r3.violations:
         v.rule = "R12.3"
         v.key = v.key.replace("R19.2", "R12.3", 1)
